@@ -123,33 +123,7 @@ fn test(c: &Case) -> TestResult {
     let mut d = StreamDrv::new(p, &b.wire, pos);
     d.check_prefix(&truth)?;
 
-    // ---- follow the generated schedule until every byte is fed
-    let mut i = 0usize;
-    // Long wires (65535-byte records) scale the read sizes so that a case stays cheap.
-    let mult = 1 + b.wire.len() / 4000;
-    let mut budget = (b.wire.len() + 100) * c.schedule.len() * 4;
-    while !d.all_fed() {
-        budget -= 1;
-        vensure!(budget > 0, "harness-inconsistent", "schedule made no progress within its budget");
-        let act = &c.schedule[i % c.schedule.len()];
-        i += 1;
-        match act {
-            Act::Feed { n, dest } => {
-                if !d.make_room(&truth)? {
-                    unstick(&mut d, &sm.order, &truth)?;
-                }
-                d.parse(((*n).max(1) as usize).saturating_mul(mult), dest.map(usize::from), &truth)?;
-            },
-            Act::Parse0 { dest } => {
-                d.parse(0, dest.map(usize::from), &truth)?;
-            },
-            Act::ConsumeStream(k) => d.consume_stream(*k as usize, &truth)?,
-            Act::Compress => d.compress(&truth)?,
-            Act::ConsumeOutput(k) => d.consume_output(*k as usize)?,
-            Act::Advance => maybe_advance(&mut d, &sm.order, &truth)?,
-        }
-        vensure!(d.error.is_none(), "stream-unexpected-error", "parse failed with {:?} on well-formed traffic", d.error);
-    }
+    drive_schedule(&mut d, &c.schedule, &sm.order, &truth)?;
     // ---- quiescence: keep parsing / consuming / advancing until nothing changes
     quiesce(&mut d, &sm.order, &truth)?;
     vensure!(d.error.is_none(), "stream-unexpected-error", "parse failed with {:?} on well-formed traffic", d.error);
@@ -177,6 +151,39 @@ fn test(c: &Case) -> TestResult {
         .label_if(sm.order.len() == 2, "two-streams")
         .label_if(sm.order.is_empty(), "no-streams")
         .label_if(sm.content.values().any(|c| c.len() >= 65535), ">=65535-bytes"))
+}
+
+/// Follows `schedule` cyclically until every wire byte has been fed.
+pub fn drive_schedule(d: &mut StreamDrv, schedule: &[Act], order: &[u8], truth: &Truth) -> Result<(), Fail> {
+    let mut i = 0usize;
+    // Long wires (65535-byte records) scale the read sizes so that a case stays cheap.
+    let mult = 1 + d.wire.len() / 4000;
+    let mut budget = (d.wire.len() + 100) * schedule.len() * 4;
+    while !d.all_fed() {
+        budget -= 1;
+        vensure!(budget > 0, "harness-inconsistent", "schedule made no progress within its budget");
+        let act = &schedule[i % schedule.len()];
+        i += 1;
+        match act {
+            Act::Feed { n, dest } => {
+                if !d.make_room(truth)? {
+                    unstick(d, order, truth)?;
+                }
+                d.parse(((*n).max(1) as usize).saturating_mul(mult), dest.map(usize::from), truth)?;
+            },
+            Act::Parse0 { dest } => {
+                d.parse(0, dest.map(usize::from), truth)?;
+            },
+            Act::ConsumeStream(k) => d.consume_stream(*k as usize, truth)?,
+            Act::Compress => d.compress(truth)?,
+            Act::ConsumeOutput(k) => d.consume_output(*k as usize)?,
+            Act::Advance => maybe_advance(d, order, truth)?,
+        }
+        if d.error.is_some() {
+            return Ok(());
+        }
+    }
+    Ok(())
 }
 
 pub fn maybe_advance(d: &mut StreamDrv, order: &[u8], t: &Truth) -> Result<(), Fail> {
